@@ -5,6 +5,7 @@ package svcdesc
 import (
 	"github.com/relab/gorums"
 	"google.golang.org/protobuf/proto"
+	"google.golang.org/protobuf/runtime/protoimpl"
 	"google.golang.org/protobuf/types/descriptorpb"
 )
 
@@ -27,8 +28,10 @@ type Message struct {
 // Opts are the gorums method options; a nil pointer means "not set".
 type Opts struct {
 	RPC, Unicast, Multicast, Quorumcall, Correctable, Async, PerNodeArg bool
-	// explicit false values (option present but false)
-	Custom string
+	Custom                                                              string
+	// False lists boolean options that are present with the explicit value false
+	// ("rpc", "unicast", "multicast", "quorumcall", "correctable", "async", "per_node_arg").
+	False []string
 }
 
 // Method is a synthesized service method. In/Out are fully-qualified message
@@ -95,6 +98,14 @@ func (o Opts) proto() *descriptorpb.MethodOptions {
 	if o.Custom != "" {
 		proto.SetExtension(mo, gorums.E_CustomReturnType, o.Custom)
 		any = true
+	}
+	for _, name := range o.False {
+		ext := map[string]*protoimpl.ExtensionInfo{"rpc": gorums.E_Rpc, "unicast": gorums.E_Unicast, "multicast": gorums.E_Multicast, "quorumcall": gorums.E_Quorumcall,
+			"correctable": gorums.E_Correctable, "async": gorums.E_Async, "per_node_arg": gorums.E_PerNodeArg}[name]
+		if ext != nil {
+			proto.SetExtension(mo, ext, false)
+			any = true
+		}
 	}
 	if !any {
 		return nil
